@@ -57,3 +57,87 @@ func VxH14len() {
 	vxAssert(len(d) <= 255, "C14.len")
 	vxAssert(vxNot(vxContains(d, "/")), "C14.segment")
 }
+
+// VxH14b: richer identities: two in-ports, a tag, and a joined sub-stream member. Any
+// difference in any component gives a different temp dir (modulo KF-C14-1), and the name
+// does not depend on map iteration order.
+func VxH14b() {
+	L := vxGet("L")
+	vxTraceMode(true)
+	mk := func(suffix string) (*Task, string, bool) {
+		a := vxStr("a"+suffix, L, vxClassSmall)
+		b := vxStr("b"+suffix, L, vxClassSmall)
+		tg := vxStr("t"+suffix, 2, vxClassSmall)
+		sub := vxStr("s"+suffix, L, vxClassSmall)
+		vxAssume(vxAnd(vxCleanPath(a), vxAnd(vxCleanPath(b), vxCleanPath(sub))))
+		ipa, e1 := NewFileIP(a)
+		ipb, e2 := NewFileIP(b)
+		ips, e3 := NewFileIP(sub)
+		vxAssume(e1 == nil && e2 == nil && e3 == nil)
+		t := NewTask(nil, nil, "p", "echo", map[string]*FileIP{"x": ipa, "y": ipb}, nil, nil,
+			map[string]string{}, map[string]string{"tg": tg}, "", nil, 1)
+		t.subStreamIPs["z"] = []*FileIP{ips}
+		ref := vxRef14(a) + vxRef14(b) + vxRef14(sub) + "tg_" + tg
+		_ = ref
+		return t, ref, true
+	}
+	t1, r1, _ := mk("1")
+	t2, r2, _ := mk("2")
+	vxMapOrder("sortedFileIPMapKeys,sortedStringMapKeys,sortedFileIPSliceMapKeys")
+	d1, d2 := t1.TempDir(), t2.TempDir()
+	d1again := t1.TempDir()
+	vxReach("both-built")
+	vxAssert(d1 == d1again, "C14.stable-under-map-order")
+	same := vxAnd(t1.InIPs["x"].Path() == t2.InIPs["x"].Path(), vxAnd(t1.InIPs["y"].Path() == t2.InIPs["y"].Path(),
+		vxAnd(t1.Tags["tg"] == t2.Tags["tg"], t1.subStreamIPs["z"][0].Path() == t2.subStreamIPs["z"][0].Path())))
+	vxKnown(vxImplies(vxAnd(vxNot(same), r1 == r2), d1 != d2), "KF-C14-1")
+	vxAssert(vxImplies(vxNot(same), vxOr(r1 == r2, d1 != d2)), "C14.injective-all-components")
+	vxAssert(vxImplies(same, d1 == d2), "C14.stable")
+}
+
+func vxRef14(p string) string {
+	return vxIte(p == ".", "", strings.ReplaceAll(p, "/", ""))
+}
+
+// VxH14name: the process name is part of the identity, and whatever the name, the temp
+// dir is one path segment. Two tasks that differ only in their (symbolic) process names.
+func VxH14name() {
+	L := vxGet("L")
+	vxTraceMode(true)
+	n1 := vxShape(vxStr("n1", L, vxClassPrint), "")
+	n2 := vxShape(vxStr("n2", L, vxClassPrint), "")
+	vxAssume(vxAnd(n1 != "", n2 != ""))
+	t1 := vxMkTask14(n1, map[string]string{"in": "d/x.txt"}, map[string]string{"k": "v"}, nil)
+	t2 := vxMkTask14(n2, map[string]string{"in": "d/x.txt"}, map[string]string{"k": "v"}, nil)
+	d1, d2 := t1.TempDir(), t2.TempDir()
+	vxReach("both-built")
+	vxAssert(vxImplies(n1 != n2, d1 != d2), "C14.process-name-is-part-of-identity")
+	vxAssert(vxImplies(n1 == n2, d1 == d2), "C14.stable")
+	vxAssert(vxNot(vxContains(d1, "/")), "C14.segment")
+	vxAssert(vxAnd(d1 != ".", d1 != ".."), "C14.segment")
+	vxAssert(len(d1) <= 255, "C14.len")
+}
+
+// VxH14keys: the temp dir of one task does not depend on map iteration order, whatever the
+// (symbolic, one-byte) names of its two parameters or tags are — in particular for names
+// that a sloppy ordering would consider equal.
+func VxH14keys() {
+	vxTraceMode(true)
+	k1 := vxShape(vxStr("k1", 1, vxClassName), "")
+	k2 := vxShape(vxStr("k2", 1, vxClassName), "")
+	vxAssume(vxAnd(k1 != "", vxAnd(k2 != "", k1 != k2)))
+	params, tags := map[string]string{}, map[string]string{}
+	if vxChoice("where", 2) == 0 {
+		params[k1] = "x"
+		params[k2] = "y"
+	} else {
+		tags[k1] = "x"
+		tags[k2] = "y"
+	}
+	t := vxMkTask14("p", map[string]string{"in": "d/x.txt"}, params, tags)
+	vxMapOrder("sortedStringMapKeys")
+	d1 := t.TempDir()
+	d2 := t.TempDir()
+	vxReach("both-built")
+	vxAssert(d1 == d2, "C14.stable-under-map-order")
+}
